@@ -5,8 +5,6 @@ package main
 
 import (
 	"encoding/json"
-	"os"
-	"runtime/pprof"
 	"strings"
 
 	"github.com/ipfs/boxo/verifshim/eng"
@@ -38,11 +36,6 @@ func runUnit(r *eng.Run, u string) {
 func main() {
 	eng.Main("C22", "model_checking", func(r *eng.Run) {
 		if u := shardUnit(); u != "" {
-			if pf := os.Getenv("VERIF_CPUPROFILE"); pf != "" {
-				f, _ := os.Create(pf)
-				pprof.StartCPUProfile(f)
-				defer pprof.StopCPUProfile()
-			}
 			runUnit(r, u)
 			return
 		}
